@@ -239,6 +239,7 @@ structure Drv where
   s : State := {}
   full : Array Write := #[]       -- the whole write history since init, oldest first (C18)
   saved : Option State := none
+  cos : List (Nat × CoSt) := []   -- live generators (C16)
 
 def drvStep (d : Drv) (line : String) : Drv × String × List Write :=
   match line.trimAscii.toString.splitOn " " with
@@ -248,6 +249,27 @@ def drvStep (d : Drv) (line : String) : Drv × String × List Write :=
      | .error e => (d, errStr e, []))
   | ["uncut"] => ({ d with s := d.saved.getD d.s, saved := none }, "ok", [])
   | ["loglen"] => (d, "ok " ++ toString d.full.size, [])
+  | "co" :: "new" :: id :: kind :: args =>
+    let mk : Option CoSt := match kind, args with
+      | "batch", [dt] => some (.batch { data := parseBatch dt })
+      | "rule", [a, r] => (Rule.ofName r).map (fun r => .rule { anchor := unx a, rule := r })
+      | "pages", [_, ps] => some (.pages { prefixes := unxList ps })
+      | "net", [o, a] => some (.net { out := is1 o, auto := is1 a })
+      | _, _ => none
+    (match mk with
+     | some c => ({ d with cos := dictSet d.cos (id.toNat?.getD 0) c }, "ok", [])
+     | none => (d, "bad-op", []))
+  | ["co", "step", id] =>
+    (match dictGet? d.cos (id.toNat?.getD 0) with
+     | none => (d, "bad-op", [])
+     | some c =>
+       let (s', c', o) := c.resume { d.s with log := [] }
+       let ws := s'.log.reverse
+       let ans := match o with
+         | .yielded => "yield"
+         | .done a => "done " ++ renderAns a
+         | .failed e => errStr e
+       ({ d with s := s', full := d.full ++ ws.toArray, cos := dictSet d.cos (id.toNat?.getD 0) c' }, ans, ws))
   | _ =>
     let (s', ans) := step { d.s with log := [] } line
     let ws := s'.log.reverse
